@@ -7,16 +7,20 @@ LEVEL_NOTE = ("Trusted: Coq 8.16.1 kernel and vm_compute (no native_compute, no 
               "Gallina model, tied to /repo's working tree on every run by differential execution (Rust executor vs vm_compute of the same "
               "Gallina functions); the executor, its Rat type and the python driver. ")
 
-CHECKS = {
-    "C03": dict(
-        text=("Theorems (all shapes, all entry values, all histories) about the flat row-major Gallina model of src/matrix: each operation "
-              "equals its textbook definition and a history refines the list-of-rows spec; the model is run against the implementation on "
-              "every shape 0..5 (0..8 thorough) of the product, every operation x every index on small shapes and random histories "
-              "(Rat vs Qc exact, f64/Complex bit-compared), and a list-of-rows reference searches for a failing input."),
-        note="f64 norms are tied and searched, not proved over R; operand non-mutation is observed at run time.",
-        technique="Coq proof over an abstract ring + model/implementation differential execution (vm_compute vs Rust executor)",
-        design="7 (C03)"),
-}
+import sys, importlib
+sys.path.insert(0, os.path.dirname(os.path.abspath(__file__)))
+
+def collect():
+    """every driver/cNN.py that defines MANIFEST = dict(text=, note=, technique=, design=) is a claimed check"""
+    out = {}
+    for fn in sorted(os.listdir(os.path.dirname(os.path.abspath(__file__)))):
+        if len(fn) == 6 and fn.startswith("c") and fn.endswith(".py") and fn[1:3].isdigit():
+            mod = importlib.import_module(fn[:-3])
+            if hasattr(mod, "MANIFEST"):
+                out[mod.PID] = mod.MANIFEST
+    return out
+
+CHECKS = collect()
 
 NOT_YET = {}
 
